@@ -19,6 +19,8 @@ A1_TABLE = {
         'cached influence sets every time the matrix is (re)built',
     'adsg_core.graph.adsg_nodes:ConnectorDegreeGroupingNode.update_deg':
         'degree cache on the shared grouping node; covered by the recompute-before-read discipline (rule A11)',
+    'adsg_core.func_cache:clear_func_cache':
+        'invalidation of the per-object function cache: deleting the memoised entries is its purpose',
     'adsg_core.graph.adsg:DSG.resolve_single_selection_choices':
         'class-level scratch record of automatically taken choices, reset before every use (rule A11 ii)',
 }
